@@ -1,4 +1,4 @@
-#include "/verif/replay/harness.h"
+#include "harness.h"
 #include "matrixssl/matrixssllib.h"
 /* C15.R1 finding: matrixDtlsGetOutdata re-encrypts the last flight on a session
    that already received a fatal alert. */
